@@ -194,7 +194,9 @@ class SensitiveWordAnonymizer(object):
     @classmethod
     def _generate_sensitive_word_regex(cls, sensitive_words):
         """Compile and return regex for the specified list of sensitive words."""
-        return re.compile("({})".format("|".join(sensitive_words)), re.IGNORECASE)
+        # Fixed order (longest first) so that the result does not depend on set iteration order
+        ordered_words = sorted(sensitive_words, key=lambda w: (-len(w), w))
+        return re.compile("({})".format("|".join(ordered_words)), re.IGNORECASE)
 
     def _get_or_generate_sensitive_word_replacement(self, sensitive_word):
         """Return the replacement string for the given sensitive word.
